@@ -20,6 +20,9 @@ func pick(n int) int {
 	return ssched.S.PickWaiter(n)
 }
 
+// OnAnyRelease, if set by the harness, runs inside every Mutex.Unlock while the mutex is still held.
+var OnAnyRelease func(m *Mutex)
+
 // Mutex: zero value usable, copyable before first use, may be unlocked by another goroutine.
 type Mutex struct {
 	locked  bool
@@ -63,6 +66,9 @@ func (m *Mutex) Unlock() {
 	}
 	if m.OnRelease != nil {
 		m.OnRelease()
+	}
+	if OnAnyRelease != nil {
+		OnAnyRelease(m)
 	}
 	m.locked = false
 	if n := len(m.waiters); n > 0 {
